@@ -1,6 +1,6 @@
 (* Model/EntryWire.v — S-expression glue for Codec / Readers / AriSpec. *)
 From Coq Require Import String List Ascii NArith ZArith Bool.
-From LS Require Import Model.Bytes Model.Sx Model.Tags Gen.Consts Model.Quote
+From LS Require Import Model.Bytes Model.Sx Model.Tags Gen.Consts Model.Quote Model.Utf8
   Model.Codec Model.Readers Model.AriSpec.
 Import ListNotations.
 
@@ -239,4 +239,22 @@ Definition e_decode_string (args : list sx) : sx :=
   match args with
   | [SA t] => sx_text (decode_string t)
   | _ => sx_err "decode_string: bad args"
+  end.
+
+(* (encode_utext none | (some (<scalar> ...))) -> token ;  (decode_utext <bytes>) ->
+   raises | (ok none) | (ok (some (<scalar> ...))) *)
+Definition e_encode_utext (args : list sx) : sx :=
+  match args with
+  | [t] => match un_opt (un_listof un_N) t with
+           | Some t' => SA (encode_utext t')
+           | None => sx_err "encode_utext: bad" end
+  | _ => sx_err "encode_utext: arity"
+  end.
+Definition e_decode_utext (args : list sx) : sx :=
+  match args with
+  | [SA t] => match decode_utext t with
+              | None => sym "invalid-utf8"
+              | Some r => app_ "ok" [sx_opt (sx_list sx_N) r]
+              end
+  | _ => sx_err "decode_utext: bad args"
   end.
